@@ -4,7 +4,9 @@ import (
 	"go/ast"
 	"go/token"
 	"go/types"
+	"regexp"
 	"sort"
+	"strconv"
 	"strings"
 )
 
@@ -525,12 +527,21 @@ func checkNamespace(c *Ctx) {
 				return true
 			}
 			var sides []string
+			parents, names := 0, 0
 			for _, a := range call.Args {
-				if s := renameSide(describeExpr(rn, a, 0)); s != "" {
+				d := describeExpr(rn, a, 0)
+				if s := renameSide(d); s != "" {
 					sides = append(sides, s)
+					if strings.HasSuffix(d, "Parent") {
+						parents++
+					} else {
+						names++
+					}
 				}
 			}
-			if len(sides) < 2 {
+			// a (parent, name) pair names one directory entry; a call taking both parents (a helper moving something
+			// from one to the other) is not a pair
+			if len(sides) < 2 || parents == 0 || names == 0 {
 				return true
 			}
 			nPairs++
@@ -608,15 +619,30 @@ func checkNamespace(c *Ctx) {
 		okMv := false
 		if mv != nil {
 			dec, inc := false, false
+			note := func(tok token.Token, d string) {
+				if tok == token.DEC && d == "recv.iNodeStore.Get(call:pkg/fuse.formKey(param#1.OldParent))#0.(pkg/fuse.nodeEntry).attr.Nlink" {
+					dec = true
+				}
+				if tok == token.INC && d == "recv.iNodeStore.Get(call:pkg/fuse.formKey(param#1.NewParent))#0.(pkg/fuse.nodeEntry).attr.Nlink" {
+					inc = true
+				}
+			}
 			ast.Inspect(mv.Body, func(n ast.Node) bool {
-				if s, ok := n.(*ast.IncDecStmt); ok {
-					d := describeExprAt(rn, s.X)
-					if s.Tok == token.DEC && d == "recv.iNodeStore.Get(call:pkg/fuse.formKey(param#1.OldParent))#0.(pkg/fuse.nodeEntry).attr.Nlink" {
-						dec = true
+				switch s := n.(type) {
+				case *ast.IncDecStmt:
+					note(s.Tok, describeExprAt(rn, s.X))
+				case *ast.CallExpr:
+					// the same two steps in a helper of the receiver: its parameters stand for the arguments passed here
+					h := p.FuncOpt(calleeID(rn.Info(), s))
+					if h == nil || h.Decl.Body == nil || h.Decl.Recv == nil || !strings.HasPrefix(h.ID, "pkg/fuse.fsMutable.") {
+						return true
 					}
-					if s.Tok == token.INC && d == "recv.iNodeStore.Get(call:pkg/fuse.formKey(param#1.NewParent))#0.(pkg/fuse.nodeEntry).attr.Nlink" {
-						inc = true
-					}
+					ast.Inspect(h.Decl.Body, func(m ast.Node) bool {
+						if t, ok := m.(*ast.IncDecStmt); ok {
+							note(t.Tok, substParams(describeExprAt(h, t.X), rn, s))
+						}
+						return true
+					})
 				}
 				return true
 			})
@@ -812,11 +838,35 @@ func checkForget(c *Ctx) {
 			if target == nil || !strings.Contains(describeExpr(f, target, 0), "attr.Nlink") {
 				return true
 			}
-			c.check(allowed[f.ID], "forget.link-count-writers", f.ID+":Nlink", p.Pos(n.Pos()),
+			okWriter := allowed[f.ID]
+			if !okWriter && f.Decl.Recv != nil && !ast.IsExported(f.Decl.Name.Name) {
+				// an unexported helper all of whose callers are the allowed writers is part of them
+				cs := callersOf(p, f.ID)
+				okWriter = len(cs) > 0
+				for _, s := range cs {
+					if !allowed[s.Fn.ID] {
+						okWriter = false
+					}
+				}
+			}
+			c.check(okWriter, "forget.link-count-writers", f.ID+":Nlink", p.Pos(n.Pos()),
 				"link counts are written only by createNode, deleteNSEntry and Rename (checked by the namespace rules)",
 				"a node's link count is written in "+f.ID+", outside createNode/deleteNSEntry/Rename: link count 0 means 'unlinked, may be released on forget'")
 			return true
 		})
 	}
 	c.requireInstances("forget.link-count-writers", 5)
+}
+
+var paramTokRE = regexp.MustCompile(`param#(\d+)`)
+
+// substParams rewrites a description made in a callee (param#i) into the caller's terms, given the call.
+func substParams(desc string, caller *FuncInfo, call *ast.CallExpr) string {
+	return paramTokRE.ReplaceAllStringFunc(desc, func(m string) string {
+		i, _ := strconv.Atoi(m[len("param#"):])
+		if i < len(call.Args) {
+			return describeExprAt(caller, call.Args[i])
+		}
+		return m
+	})
 }
